@@ -8,12 +8,12 @@ def chk(pid, category, text, note, technique, design_ref, thorough=True):
     CHECKS[pid] = dict(category=category, text=text, note=note, technique=technique, design_ref=design_ref, thorough=thorough)
 
 chk("C01", "exploration",
-    "Runtime differential monitor: seeded contents x option configurations are pushed through every writer of both modules and every distinct output through every reader; outputs are compared byte-for-byte with an independent reference encoder and reader results with the logical (de-duplicated) content. Held on the executions produced; says nothing about contents/configurations not generated.",
+    "Runtime differential monitor: seeded contents x option configurations are pushed through every writer of both modules and every distinct output through every reader; outputs are compared byte-for-byte with an independent reference encoder and reader results with the logical (de-duplicated) content. Contents include 1000+-block sequences, section sizes at varint and power-of-two boundaries, identity CIDs longer than MaxIndexCidSize. Held on the executions produced; says nothing about contents/configurations not generated.",
     "trusts the reference codec (harness/internal/refcar, independent of go-car/go-cid/go-varint/CBOR libs) and stdlib hashes; honest blocks only",
     "runtime monitoring: differential oracle over produced bytes and reader event sequences (reference codec)", "DESIGN.md §6 C01")
 
 chk("C02", "exploration",
-    "Runtime monitor over mutated archives: EVERY proper prefix and every byte (one bit quick / all 8 bits thorough) of seeded small valid CARv1/CARv2 archives, plus random mutations, through 20 scanning readers (v2 BlockReader on seekable/plain/1-byte/bufio/data+EOF/stutter/seekable-data+EOF sources with and without ZeroLengthSectionAsEOF, carv1 reader, root CarReader/LoadCar, Inspect(true)); archives with one large section are sampled at offsets; oracles: every returned block re-hashed with stdlib hashes, reference section table decides whether a cut/flip must be reported, returned blocks must be a prefix of the original sequence. A further family makes the SOURCE fail with a non-EOF error at every payload offset (readers that return or validate block bytes must not end cleanly), and a returned block whose hash function has no implementation anywhere counts as unverified. Enumeration is total per archive, archives are sampled.",
+    "Runtime monitor over mutated archives: EVERY proper prefix and every byte (one bit quick / all 8 bits thorough) of seeded small valid CARv1/CARv2 archives, plus random mutations, through 24 scanning readers (v2 BlockReader over Reader.DataReader(), OpenReader(file).Inspect on a real mmap'd file, v2 BlockReader on seekable/plain/1-byte/bufio/data+EOF/stutter/seekable-data+EOF sources with and without ZeroLengthSectionAsEOF, carv1 reader, root CarReader/LoadCar, Inspect(true)); archives with one large section are sampled at offsets; oracles: every returned block re-hashed with stdlib hashes, reference section table decides whether a cut/flip must be reported, returned blocks must be a prefix of the original sequence. A further family makes the SOURCE fail with a non-EOF error at every payload offset (readers that return or validate block bytes must not end cleanly), and a returned block whose hash function has no implementation anywhere counts as unverified. Enumeration is total per archive, archives are sampled.",
     "trusts refcar's section table and stdlib/x-crypto hashes; cuts on section boundaries and past a CARv2 payload are exempt as the property states; zero-length (fully truncated) digests verify vacuously as multihash defines",
     "runtime monitoring: exhaustive truncation/bit-flip fault injection per archive with hash and clean-end oracles", "DESIGN.md §6 C02")
 
@@ -77,7 +77,7 @@ chk("C16", "fault_enumeration",
     "runtime monitoring: enumerated write-fault injection with acked-set bookkeeping and reference decode of the final bytes", "DESIGN.md §6 C16")
 
 chk("C06", "fault_enumeration",
-    "Runtime crash-point enumeration: the ordered mutation trace (with call/ack markers) of seeded sessions (open, 1-5 puts, Finalize) x 8 option configurations x {blockstore traced through the verif hooks, storage on a tracing memfile} x {fresh file, resumed discarded file, resumed finalized file} is cut at EVERY event boundary and within every write at torn lengths {1, mid, len-1} (every byte in the thorough tier and in 1 of 8 quick cases); every crash image is reopened with the same roots/options and judged by acked-set bookkeeping: on error all acknowledged sections must remain intact in the file left behind; on success all acknowledged blocks are present with exact bytes, nothing never put is listed, in-flight blocks if present are intact, and after two more puts + Finalize the archive decodes strictly, verifies, holds all acknowledged + new blocks and nothing unknown, with exact index and header. A strace cross-check runs sampled sessions in an untapped child and requires the kernel's pwrite64/ftruncate sequence on the file to equal the hook trace.",
+    "Runtime crash-point enumeration: the ordered mutation trace (with call/ack markers) of seeded sessions (open, 1-5 puts, Finalize) x 8 option configurations x {blockstore traced through the verif hooks, storage on a tracing memfile} x {fresh file, resumed discarded file, resumed finalized file} is cut at EVERY event boundary and within every write at torn lengths {1, mid, len-1} (every byte in the thorough tier and in 1 of 8 quick cases); every crash image is reopened with the same roots/options and judged by acked-set bookkeeping: on error all acknowledged sections must remain intact in the file left behind; on success all acknowledged blocks are present with exact bytes, nothing never put is listed, in-flight blocks if present are intact, and after two more puts + Finalize the archive decodes strictly, verifies, holds all acknowledged + new blocks and nothing unknown, with exact index and header. Further sessions contain a Finalize that fails at its 1st/2nd/3rd write (fault + crash product: the caller carries on, every crash point of the whole trace is enumerated). A strace cross-check runs sampled sessions in an untapped child and requires the kernel's pwrite64/ftruncate sequence on the file to equal the hook trace.",
     "crash model = prefix of the issued writes with the last write torn (no reordering); traces are checked for completeness against the final file; trusts refcar and the memfile/hook adapter",
     "runtime monitoring: exhaustive crash-image enumeration over the recorded write trace with acked-set oracle and reference decode", "DESIGN.md §6 C06")
 chk("C17", "exploration",
